@@ -1178,10 +1178,13 @@ class ModelBuilder:
                         if not isinstance(existing_deps, list):
                             existing_deps = [existing_deps] if existing_deps else []
                         # Check if source_task is already in dependencies
+                        # (an on-start entry and a finish-to-start entry for the same pair
+                        # are two different constraints, not duplicates)
                         already_exists = False
                         for dep in existing_deps:
                             dep_task = dep.get("task") if isinstance(dep, dict) else dep
-                            if dep_task is source_task:
+                            dep_onstart = bool(dep.get("onstart")) if isinstance(dep, dict) else False
+                            if dep_task is source_task and dep_onstart == bool(options.get("onstart")):
                                 already_exists = True
                                 break
                         # A bare duplicate adds nothing, but an entry that carries options
